@@ -3,6 +3,7 @@ import Driver.Transforms
 import Driver.Cable
 import Driver.Scan
 import Driver.Views
+import Driver.Connect
 open Driver
 
 def handle (line : String) : String :=
@@ -17,6 +18,8 @@ def handle (line : String) : String :=
   | "nscan" :: rest => handleNScan rest
   | "icore" :: rest => handleICore rest
   | "view" :: rest => handleView rest
+  | "fc" :: rest => handleFC rest
+  | "mc" :: rest => handleMC rest
   | "ping" :: _ => "pong"
   | _ => "bad-op"
 
